@@ -43,7 +43,10 @@ def rule_tables(ctx):
         if ok:
             shape = ('attr', T, 'shape')
             want = {(mkcmp('Lt', n_, ('proj', 0, shape)), True), (mkcmp('Lt', k_, ('proj', 1, shape)), True)}
-            cond_ok = atoms(path(fast[0])) == want
+            # n and k index the table, so they are integers: `not n >= s` is `n < s`
+            neg = {'GtE': 'Lt', 'LtE': 'Gt', 'Gt': 'LtE', 'Lt': 'GtE'}
+            got = {(mkcmp(neg[c[1]], c[2], c[3]), True) if (not pol and c[0] == 'cmp' and c[1] in neg) else (c, pol) for c, pol in atoms(path(fast[0]))}
+            cond_ok = got == want
         ctx.check(ok and cond_ok, 'R11.2/table-guard', f.construct(table), f"{table}[n, k] read only if n < shape[0] and k < shape[1]; otherwise {slow}(n, k)",
                   f"table read is not guarded by a strict bound check against {table}.shape, or the fall-back is not {slow}(n, k)", f.where())
         # fill loop at module level
